@@ -88,7 +88,7 @@ def check_one(case, ctx, deep):
 
 
 def plan(tier, seed):
-    return tablecheck.plan(tier, seed, wide=True, thorough_cells=18)
+    return tablecheck.plan(tier, seed, wide=True, tall=(4, 30) if tier == 'quick' else (8, 300), thorough_cells=18)
 
 
 def run(task, ctx):
